@@ -129,8 +129,16 @@ def gen_col(rng, name, st, n, miss_p, for_target=False):
         for _ in range(n):
             if miss(rng, mp):
                 cells.append(None)
-            elif fmt not in (None, "datetime64") and rng.chance(0.05):
-                cells.append("garbage")
+            elif fmt not in (None, "datetime64") and rng.chance(0.08):
+                # unparseable cells: plain garbage, or a NEAR MISS -- a well-formed date under the configured
+                # format with something before/after it (strict parsing must reject it: it counts as missing)
+                if rng.chance(0.5):
+                    cells.append("garbage")
+                else:
+                    y = rng.randint(1990, 2030)
+                    base = fmt_time([y, rng.randint(1, 12), rng.randint(1, 28), 0, 0, 0], fmt)
+                    cells.append(rng.pick([base + "Z", base + " UTC", "on " + base, base + "!",
+                                           base + (" 17:20:04" if "%H" not in fmt else ".250")]))
             else:
                 y = rng.pick([rng.randint(1700, 2200), rng.randint(1990, 2030)])
                 m = rng.randint(1, 12)
@@ -162,7 +170,9 @@ def gen_col(rng, name, st, n, miss_p, for_target=False):
     return col
 
 
-def gen_frame(rng, stypes=None, n=None, with_target=None, index_kinds=None):
+def gen_frame(rng, stypes=None, n=None, with_target=None, index_kinds=None, target_missing=0.0):
+    """target_missing: probability that the target column carries missing cells (unlabeled rows); off by default
+    because several harnesses train on the target."""
     n = n if n is not None else rng.wpick([(1, 1), (2, 2), (3, 3), (4, rng.randint(4, 10))])
     all_st = ["numerical", "categorical", "multicategorical", "sequence_numerical", "timestamp", "embedding",
               "text_embedded", "image_embedded", "text_tokenized"]
@@ -170,7 +180,11 @@ def gen_frame(rng, stypes=None, n=None, with_target=None, index_kinds=None):
     k = rng.randint(1, min(6, len(stypes) + 2))
     chosen = [rng.pick(stypes) for _ in range(k)]
     miss_p = rng.pick([0.0, 0.1, 0.3, 0.5])
-    names = rng.sample(["alpha", "beta", "gamma", "delta", "eps", "zeta", "eta", "theta", "iota", "kappa"], k + 1)
+    pool = ["alpha", "beta", "gamma", "delta", "eps", "zeta", "eta", "theta", "iota", "kappa"]
+    if rng.chance(0.3):
+        # names mixing letter case, incl. case-only twins: the canonical order is Python's str order
+        pool = pool + ["Alpha", "Beta", "ZETA", "Eta", "Kappa", "Zip", "age", "Age", "B2", "a_1"]
+    names = rng.sample(pool, k + 1)
     cols = [gen_col(rng, names[i], st, n, miss_p) for i, st in enumerate(chosen)]
     target = None
     wt = rng.chance(0.6) if with_target is None else with_target
@@ -178,6 +192,12 @@ def gen_frame(rng, stypes=None, n=None, with_target=None, index_kinds=None):
         tst = rng.pick(["numerical", "categorical"])
         cols.append(gen_col(rng, names[k], tst, n, 0.0, for_target=True))
         target = names[k]
+        if target_missing and n >= 3 and rng.chance(target_missing):
+            tc = cols[-1]["cells"]
+            keep = 2 if tst == "categorical" else 1      # the first cells keep the classes / one usable value
+            for i in range(keep, n):
+                if rng.chance(0.4):
+                    tc[i] = None
     order = [c["name"] for c in cols]
     rng.shuffle(order)
     return {"n": n, "index": rng.pick(index_kinds or ["range", "range", "offset", "perm", "string", "dup"]),
@@ -242,8 +262,8 @@ class StubTokenizer:
 
 
 def fmt_time(cell, fmt):
-    if cell is None or cell == "garbage":
-        return cell
+    if cell is None or isinstance(cell, str):
+        return cell          # missing, or an unparseable text shipped verbatim
     y, m, d, hh, mm, ss = cell
     if fmt == "%Y-%m-%d":
         return f"{y:04d}-{m:02d}-{d:02d}"
@@ -450,7 +470,7 @@ def expected_cell(col, cell, stats, float_dtype="float32"):
             return []
         return [None if x is None else f32(x) for x in cell]
     if st == "timestamp":
-        if cell is None or cell == "garbage":
+        if cell is None or isinstance(cell, str):      # missing or unparseable text
             return [-1] * 7
         y, m, d, hh, mm, ss = cell
         wd = dt.date(y, m, d).weekday()
